@@ -30,8 +30,11 @@ class World:
         # link-failure plan: list of dicts consumed one per session
         #   {'after': k, 'mode': 'driver'|'sender', 'msg': str}
         self.fail_plan = []
+        self.can_inject = False    # start the error-report thread on every link (for inject_failure)
+        self.delay_range = (0.05, 1.6)
         self.on_uplink = None      # optional observer(session, header, data)
         self.reject_connect = []   # per-session: exception text to raise in connect (consumed)
+        self.dupable = None        # optional fn(header, data) -> may this downlink packet be duplicated / delayed?
         self.lossy = None          # optional fn(direction, header, data) -> may this packet be lost?
         self.on_link_close = None  # optional observer(link), called at the start of close()
         self.hist = None           # optional shared history list: world.note() appends to it
@@ -114,7 +117,7 @@ def make_simlink_class():
                 self.fail = w.fail_plan.pop(0)
             self.device.link_connected(self)
             w.sim.log('link-connect', self.session)
-            if self.fail:
+            if self.fail or w.can_inject:
                 t = P.SimThread(target=self._err_thread, name='simlink-%d' % self.session)
                 t.daemon = True
                 t.start()
@@ -150,6 +153,14 @@ def make_simlink_class():
                         self.fail['reported'] = True
                         self.errbox.put(self.fail.get('msg', 'simulated link failure (late)'))
                 self.world.sim.after(5.0, fallback)
+
+        def inject_failure(self, mode='driver', msg='simulated link failure', block=0):
+            """Kernel or thread context: fail this link now (once)."""
+            if self.closed or self.failed:
+                return
+            if self.fail is None:
+                self.fail = {'after': -1, 'mode': mode, 'msg': msg, 'block': block}
+            self._trigger_failure()
 
         def _count(self):
             self.exchanged += 1
@@ -212,9 +223,10 @@ def make_simlink_class():
             lost = False
             if w.needs_resending and (w.lossy is None or w.lossy('down', header, data)):
                 lost = w.faults.flag('down_loss')
-            if not lost and w.faults.flag('down_dup'):
+            faultable = w.dupable is None or w.dupable(header, data)
+            if not lost and faultable and w.faults.flag('down_dup'):
                 copies = 2
-            delay = w.faults.amount('down_delay', 0.05, 1.6)
+            delay = w.faults.amount('down_delay', *w.delay_range) if faultable else 0.0
             w.wire.append((sim.now, self.session, 'down', header, data,
                            'lost' if lost else ('dup' if copies == 2 else '') + ('delayed' if delay else '')))
             if lost:
